@@ -72,7 +72,7 @@ def corpus():
     iv = lambda n: ["v", ["i", n]]  # noqa
     B = lambda start, calls, spec, cls="SQLLiteQuery", db=1: {"kind": "b", "cls": cls, "start": start, "calls": calls, "spec": spec, "db": db}  # noqa
     out = [
-        # (the witnesses of the known findings live in corpus/C05/known_findings.json)
+        # (the witnesses of the former findings — now fixed — live in corpus/C05/known_findings.json: a regression is a VIOLATION)
         # ---- shapes that must stay right ----
         B(["into", "t"], [["columns", [["s", "a"], ["s", "b"]]], ["insert", [iv(1), sv("it's ),( x")]], ["insert", [["seq", "tuple", [["n"], ["b", True]]], ["seq", "tuple", [["f", "1.5"], ["i", -3]]]]]],
           {"kind": "insert", "table": "t", "cols": ["a", "b"], "rows": [[["i", 1], ["s", "it's ),( x"]], [["n"], ["b", True]], [["f", "1.5"], ["i", -3]]], "mode": "insert"}),
@@ -96,6 +96,8 @@ def corpus():
           {"kind": "insert-select", "table": "k", "cols": ["a", "b"], "from": ["u"], "sels": [_f("x"), _f("y")], "where": ["basic", "gt", _f("x"), i(1), None], "mode": "replace"}),
         B(["into", "t"], [["fromselect", "u", [_f("x")]], ["columns", [["s", "a"], ["s", "c"]]], ["fromselect", "k", [_f("c")]], ["where", ["basic", "lt", _f("x"), i(3), None]]],
           {"kind": "insert-select", "table": "t", "cols": ["a", "c"], "from": ["u", "k"], "sels": [_f("x"), _f("c")], "where": ["basic", "lt", _f("x"), i(3), None], "mode": "insert"}),
+        B(["update", "t"], [["set", ["s", "a"], ["t", ["sub", None]]], ["set", ["s", "b"], ["i", 1]], ["where", ["basic", "gt", _f("id"), i(1), None]]],
+          {"kind": "update", "table": "t", "sets": [["a", ["t", ["sub", None]]], ["b", ["i", 1]]], "where": ["basic", "gt", _f("id"), i(1), None]}),
         B(["update", "t"], [["set", ["s", "a"], ["b", True]], ["set", ["s", "b"], ["b", False]]],
           {"kind": "update", "table": "t", "sets": [["a", ["b", True]], ["b", ["b", False]]], "where": None}),
         B(["into", "t"], [["columns", [["s", "a"], ["s", "b"]]], ["insert", [["v", ["b", True]], ["v", ["b", False]]]]],
@@ -235,6 +237,9 @@ def construct(spec, calls):
         for _, v in spec["sets"]:
             if v[0] == "t" and hazard(v[1]):
                 return "set-expression:" + hazard(v[1])
+        for _, v in spec["sets"]:
+            if v[0] == "t" and v[1][0] == "sub":
+                return "set-expression:subquery"
     if spec.get("where") is not None and hazard(spec["where"]):
         return "where:" + hazard(spec["where"])
     if spec.get("where_item") is not None:
